@@ -33,7 +33,7 @@ PROBES = ["refused_illegal", "refusal_crash", "sw_pulse", "sw_pulse_off", "sw_pu
           "mhd_off", "psu_deferred", "op_on_deadline", "off_late_after_stall", "hold_enable", "hw_pulse",
           "timed_enable", "rule_set", "rule_refused", "eos_repulse", "ejector_pulse", "ejector_enable",
           "ejector_hold", "coil_player_request", "show_request", "mode_stop_holding", "dual_wound", "driver_light",
-          "digital_output", "over_refusal", "boot_refused", "pulse_with_timed_enable", "event_request"]
+          "digital_output", "over_refusal", "boot_refused", "pulse_with_timed_enable", "event_request", "template_default_changed"]
 REAL = ["mpf.devices.driver.Driver", "mpf.devices.dual_wound_coil.DualWoundCoil", "mpf.devices.digital_output.DigitalOutput",
         "mpf.config_players.coil_player.CoilPlayer (machine, mode, show)", "mpf.devices.flipper.Flipper",
         "mpf.devices.autofire.AutofireCoil", "mpf.core.platform_controller.PlatformController + SoftwareEosRepulseManager",
@@ -65,8 +65,19 @@ Relaxations: (R1) a later accepted pulse request on the same coil supersedes the
 software-timed pulse (the newer command legitimately switches the coil on for its own time, exactly as a hardware
 pulse would restart).  (R2) refusing a legal request is never a violation (safety property); the refusal classes
 MPF is known to apply are listed in `safe_refusal`; any other refusal of a legal request is reported as a harness
-error for triage.  (R3) wrong-typed / fractional parameters: either refusal or execution within limits.
+error for triage.  (R3) wrong-typed / fractional parameters: either refusal or execution within limits (a bool that
+reaches the seam counts as the number it stands for).  (R4) the switch-on of a software-timed pulse is an `enable`
+whose hold field carries the *pulse* power for the pulse time: it is judged against max_pulse_power, not against
+max_hold_power.  (R5) in the instant a template default_pulse_ms is re-evaluated a parameterless request may be judged
+with the old or the new default.
+Refusal inside an event handler / task kills MPF (MpfCrashed): for a request that may be refused this is the
+expected refusal-by-exception and ends the run; any other crash is a harness error.
 """
+
+
+class HarnessBug(BaseException):
+    """Internal inconsistency of the check itself (never swallowed by MPF's or the check's `except Exception`)."""
+
 
 HW_MAX_PULSE = 255          # DriverPlatform.features['max_pulse'] of the (virtual) platform
 GENERIC = ["c_a", "c_b"]
@@ -94,6 +105,14 @@ def holds_allowed(env):
 
 def eff_pulse_ms(env, mpf_default):
     return env["default_pulse_ms"] if env.get("default_pulse_ms") is not None else mpf_default
+
+
+def eff_pulse_ms_options(env, mpf_default):
+    """The default in force; two candidates in the instant a template default is being re-evaluated."""
+    out = [eff_pulse_ms(env, mpf_default)]
+    if "default_pulse_ms_old" in env:
+        out.append(env["default_pulse_ms_old"])
+    return out
 
 
 def eff_pulse_power(env):
@@ -400,7 +419,7 @@ def _gen_op(ch, envs, mpf_default, cps, n_show_steps):
     elif kind == "do":
         op["method"] = ch.weighted("dom", [("enable", 3), ("disable", 3), ("pulse", 2)])
         if op["method"] == "pulse":
-            op["ms"] = ch.pick("doms", [10, 100, 255])
+            op["ms"] = ch.weighted("doms", [(10, 3), (100, 3), (255, 3), (256, 1), (1000, 0.5), (-5, 1), (0, 1)])
     elif kind == "light":
         op["brightness"] = ch.pick("lb", [255, 128, 64, 0, 32])
         op["fade_ms"] = ch.pick("lf", [0, 0, 100, 300])
@@ -428,6 +447,10 @@ def plan(ch, tier):
     allow_bad = ch.flag("bad_defaults", 0.05)
     mpf_default = ch.weighted("mpf_default_pulse_ms", [(10, 6), (30, 2), (256, 1)])
     envs = {name: _draw_env(ch, name, mpf_default, allow_bad) for name in ALL_COILS}
+    # default_pulse_ms of c_b as a template on a machine variable that changes at run time
+    tmpl = None
+    if ch.flag("tmpl", 0.2):
+        tmpl = envs["c_b"]["default_pulse_ms"] if envs["c_b"]["default_pulse_ms"] is not None else mpf_default
     # coil_player entries (machine-wide and in mode m1) and the show, drawn per run
     cps = {}
     for i in range(1 + ch.choice("ncp", 4)):
@@ -472,6 +495,10 @@ def plan(ch, tier):
     ops = []
     for _ in range(n):
         op = _gen_op(ch, envs, mpf_default, sorted(cps), len(show))
+        if tmpl is not None and ch.flag("setvar", 0.15):
+            mx = envs["c_b"]["max_pulse_ms"]
+            op = {"op": "setvar", "value": ch.weighted("varval", [(10, 2), (30, 2), (256, 1), (300, 1), (-3, 0.7), (10.5, 0.3)] +
+                                                     ([(mx, 2), (mx + 1, 2)] if mx is not None else []))}
         w = ch.weighted("when", [("rel", 5), ("deadline", 4), ("now", 1.5)])
         if w == "rel":
             op["when"] = ["rel", ch.pick("dt", [0.0, 0.001, 0.01, 0.05, 0.1, 0.2, 0.255, 0.256, 0.3, 0.5, 1.0, 2.0])]
@@ -481,7 +508,7 @@ def plan(ch, tier):
             op["when"] = ["rel", 0.0]
         ops.append(op)
     return {"knobs": knobs, "mpf_default": mpf_default, "envs": envs, "cps": cps, "show": show,
-            "overwrites": overwrites, "ej": ej, "ops": ops, "allow_bad": allow_bad}
+            "overwrites": overwrites, "ej": ej, "ops": ops, "allow_bad": allow_bad, "tmpl": tmpl}
 
 
 def shrink(plan):
@@ -567,7 +594,16 @@ class Monitor:
         if env is None:
             req = {"kind": kind, "coil": coil, "a": a, "cls": "open", "why": ["unknown_coil"], "safe": []}
         else:
+            if "default_pulse_ms_old" in env and self.now() > env["default_changed_at"]:
+                del env["default_pulse_ms_old"]
             cls, why, safe = judge(kind, env, self.mpf_default, a)
+            if "default_pulse_ms_old" in env and a.get("pulse_ms") is None and kind != "disable":
+                # a template default changed in this very instant: MPF may still use the previous value
+                env2 = dict(env, default_pulse_ms=env["default_pulse_ms_old"])
+                del env2["default_pulse_ms_old"]
+                cls2, why2, safe2 = judge(kind, env2, self.mpf_default, a)
+                if cls2 != cls:
+                    cls, why, safe = "open", ["default_changing"], safe + safe2
             req = {"kind": kind, "coil": coil, "a": a, "cls": cls, "why": why, "safe": safe}
         req["n0"] = self.ncmd.get(coil, 0)
         req["r0"] = self.nrule.get(coil, 0)
@@ -585,7 +621,8 @@ class Monitor:
 
     def end(self, req, exc):
         from sim.harness import Violation
-        assert self.stack and self.stack[-1] is req
+        if not self.stack or self.stack[-1] is not req:
+            raise HarnessBug("request stack out of order")
         self.stack.pop()
         if isinstance(exc, Violation) or (exc is not None and not isinstance(exc, Exception)):
             return
@@ -712,7 +749,7 @@ class Monitor:
         if src is not None and src["kind"] == "pulse":
             d = src["a"].get("pulse_ms")
             if d is None:
-                d = eff_pulse_ms(env, self.mpf_default)
+                d = max([x for x in eff_pulse_ms_options(env, self.mpf_default) if is_num(x)] or [0])
             d = d if is_num(d) else 0
             ctx.probe("sw_pulse")
             for o in self.open_obligations(coil):
@@ -861,6 +898,20 @@ def install_wrappers(mon):
               "set_pulse_on_hit_and_enable_and_release_and_disable_rule"):
         wrap_rule(n)
 
+    from mpf.devices.digital_output import DigitalOutput
+    orig_do_pulse = DigitalOutput.pulse
+
+    def do_pulse(self, pulse_ms):
+        req = mon.begin("pulse", self.name, {"pulse_ms": pulse_ms})
+        try:
+            r = orig_do_pulse(self, pulse_ms)
+        except BaseException as e:      # pylint: disable=broad-except
+            mon.end(req, e)
+            raise
+        mon.end(req, None)
+        return r
+    DigitalOutput.pulse = do_pulse
+
     orig_init = SimPlatform.__init__
 
     def init(self, machine):
@@ -912,6 +963,9 @@ def build_patches(plan):
         patches["ball_devices"]["bd_plunger"]["eject_coil_max_wait_ms"] = ej["max_wait"]
     if ej["af_delay"]:
         patches["autofire_coils"].setdefault("af1", {})["coil_pulse_delay"] = ej["af_delay"]
+    if plan.get("tmpl") is not None:
+        patches["coils"]["c_b"]["default_pulse_ms"] = "machine.cb_ms"
+        patches["machine_vars"] = {"cb_ms": {"initial_value": plan["tmpl"], "value_type": "int", "persist": False}}
     mode_patches = {"m1": {"coil_player": mode_cp}} if mode_cp else None
     return patches, mode_patches
 
@@ -1015,6 +1069,13 @@ def execute(ctx, plan):
             guarded(getattr(m.autofire_coils["af1"], op["method"]))
         elif kind == "switch":
             sim.hit_switch(op["switch"], op["state"])
+        elif kind == "setvar":
+            env = mon.envs["c_b"]
+            env["default_pulse_ms_old"] = env["default_pulse_ms"] if "default_pulse_ms_old" not in env else env["default_pulse_ms_old"]
+            env["default_pulse_ms"] = op["value"]
+            env["default_changed_at"] = now
+            ctx.probe("template_default_changed")
+            m.variables.set_machine_var("cb_ms", op["value"])
         elif kind == "eos_cycle":
             # button pressed, EOS closes, stays closed, opens again (flipper knocked down) -> software repulse
             guarded(m.flippers["f2"].enable)
